@@ -128,7 +128,8 @@ def run(ctx):
                lambda e: e.update(str=e["os"] + "/x86_64"), "alias")
     cov = {
         "states": states, "transitions": trans,
-        "traces_validated_against_impl": rounds,
+        "traces_validated_against_impl": total_lines - len(ctx.violations),
+        "log_files": rounds,
         "samples": samples,
         "evaluations": total_lines,
         "distinct_nontrivial": len(distinct),
